@@ -201,6 +201,15 @@ def run(repo='/repo', tier='quick'):
     else:
         res.holds('C07.c', 'ended-state-silent', 'no path from the entry of %s in the ended state %s reaches a hand-out of the decompression buffer' % (DECOMP, state0), f.loc)
 
+    # ---------------- C07.f header bytes carried across calls are appended, not overwritten
+    res.rule('C07.f', 'a stream header that may arrive in pieces is accumulated at its running offset (memcpy destination is buffer + counter for the counter that is then advanced by the same length)')
+    acc = P.accumulate_sites(f)
+    if not acc:
+        res.info('C07.f', 'no-accumulator', 'the decompress routine carries no partial header across calls', f.loc)
+    for b, i, c, cnt, ok in acc:
+        res.check(ok, 'C07.f', 'accumulate:%s' % cnt, 'memcpy appends at %s before %s += n' % (cnt, cnt),
+                  'memcpy(%s, ...) fills a buffer whose fill counter %s is then advanced by the same length, but the destination is not buffer + %s: a header cut by a chunk boundary is overwritten instead of appended' % (P.K(c['args'][0]), cnt, cnt), c['loc'])
+
     # ---------------- C07.d
     rcalls = f.calls('htp_gzip_decompressor_restart')
     if not rcalls:
